@@ -116,5 +116,11 @@ func (m *model) Resolve(p *xp.Path) (xp.Val, error) {
 		return xp.Val{}, err
 	}
 	m.reqs = append(m.reqs, Req{"GetValue", id.String()})
+	if IsLeafList(id) {
+		return xp.VSet([]string{tree.DefaultValue(id) + "#1", tree.DefaultValue(id) + "#2"}), nil
+	}
 	return xp.VSet([]string{tree.DefaultValue(id)}), nil
 }
+
+// IsLeafList: the nodes named "ll" are leaf-lists with two values.
+func IsLeafList(id tree.ID) bool { return len(id) > 0 && id[len(id)-1].Name == "ll" }
